@@ -113,6 +113,17 @@ def eval_call(ex, node, st):
         raise OutsideSubset('call of self.%s (line %s): no contract'
                             % (chain[1], ex.cur_line))
 
+    # ---- a method of a computed receiver (self._queues[name].put(..)) can be given
+    #      a handler by its source text in the spec's `calls` / `effects`
+    if not chain:
+        try:
+            text = ast.unparse(func)
+        except Exception:
+            text = None
+        tgt = ex.spec.get('calls', {}).get(text) or ex.spec.get('effects', {}).get(text)
+        if callable(tgt):
+            return tgt(ex, node, st)
+
     # ---- method on a value ---------------------------------------------------
     return call_method(ex, node, st)
 
